@@ -193,6 +193,7 @@ def run(ctx):
         ctx.check(parts is not None and not extra, "prerun-instances:unconditional", "guarded_by", pr.loc(lp[0]["stmt"]),
                   "instances are prerun whenever the ruleset is enabled", "instance prerun is conditioned on %s" % extra)
 
+    init_results_checked(ctx, "C11")
     # ---- instance creation: fresh plugins, cgroup default, keyed insert
     rg = ctx.fn1("Oomd::Engine::Ruleset::registerRunnableRulesetForCgroupPath")
     X = Expander(P, rg)
@@ -203,7 +204,23 @@ def run(ctx):
         which = rg.text(rg.nodes[i]["recv"])
         t = X(rg.nodes[i]["args"][0])
         if which == "action_group":
-            ok = t.startswith("Oomd::getPluginRegistry().create(")
+            t0 = re.sub(r"^std::move\((.*)\)$", r"\1", t)
+            if t0.startswith("var:"):
+                # a local that is (re)assigned: every value it can hold has to be a newly created plugin
+                nm = t0[4:]
+                defs = []
+                init_, v_ = local_init(rg, nm, must=False)
+                if v_ is not None and init_ is not None and init_ >= 0:
+                    defs.append(X(init_))
+                for j in rg.calls("reset"):
+                    if rg.text(rg.nodes[j].get("recv", -1)) == nm:
+                        defs.append(X(rg.nodes[j]["args"][0]) if rg.nodes[j].get("args") else "nullptr")
+                for w in local_writes(rg, nm, must=False):
+                    defs.append(X(write_rhs(rg, w)))
+                ok = bool(defs) and all("Oomd::getPluginRegistry().create(" in d for d in defs)
+                t = " | ".join(defs)
+            else:
+                ok = t0.startswith("Oomd::getPluginRegistry().create(") or "Oomd::getPluginRegistry().create(" in t0[:80]
         else:
             ok = t.startswith("std::make_unique(*") and "detector_groups_" in t
         ctx.check(ok, "instance-owns-fresh-plugins:" + which, "provenance", rg.loc(i),
@@ -212,14 +229,17 @@ def run(ctx):
     inits = rg.calls("BasePlugin::init", "BasePlugin::initPlugin")
     te = [i for i in rg.calls("try_emplace", "emplace", "insert") if rg.text(rg.nodes[i].get("recv", -1)) == "args"]
     ev = {i: [("set", "cgroup-default")] for i in te}
-    fg = Flow(P, rg, events=ev, cg=ctx.cg)
+    REFUSED = re.compile(r"^\((0 == .*->init(Plugin)?\(args, .*\)|.*->init(Plugin)?\(args, .*\) == 0)\)$")
+    fg = Flow(P, rg, events=ev, cg=ctx.cg, edge_tokens=lambda k, p: ["default-refused"] if (REFUSED.match(k) and p is False) else None)
     ctx.counters["instance_action_inits"] = len(inits)
     ctx.floor("instance_action_inits", 1, "init of the instance's actions")
     for i in inits:
-        ctx.check(fg.must(i, "cgroup-default"), "actions-default-to-instance-cgroup", "must_precede", rg.loc(i),
-                  "the instance cgroup is supplied as default 'cgroup' argument before init",
-                  "actions of the instance are initialised without the instance cgroup as default target")
         a = [X(x) for x in rg.nodes[i]["args"]]
+        with_default = rg.text(rg.nodes[i]["args"][0]) == "args" and fg.must(i, "cgroup-default")
+        ctx.check(with_default or fg.must(i, "default-refused"), "actions-default-to-instance-cgroup", "must_precede", rg.loc(i),
+                  "an action is initialised with the instance cgroup as default 'cgroup' argument; only an action that refused that argument set is "
+                  "initialised with its configured arguments alone",
+                  "actions of the instance are initialised without the instance cgroup as default target")
         ctx.check("getPluginArgs()" in a[0] or a[0].startswith("var:args") or "args" in rg.text(rg.nodes[i]["args"][0]), "actions-keep-their-args", "provenance", rg.loc(i),
                   "actions are initialised with the template action's arguments", "init receives " + a[0][:80])
     for i in te:
